@@ -1,8 +1,8 @@
 package crl
 
 import (
+	"go.uber.org/zap"
 	"github.com/gr33nbl00d/caddy-revocation-validator/config"
-	"github.com/gr33nbl00d/caddy-revocation-validator/core"
 	"github.com/gr33nbl00d/caddy-revocation-validator/crl/crlrepository"
 	"github.com/gr33nbl00d/caddy-revocation-validator/zz_verif/verifrt"
 )
@@ -16,48 +16,43 @@ import (
 func VerifC16_ProvisionRestart() {
 	fetch := config.CRLFetchMode(verifrt.Choose(2))
 	sig := config.SignatureValidationMode(verifrt.Choose(3))
-	c := newChecker(true, fetch, false, sig)
+	crlrepository.VerifInstallWorld()
 	verifrt.InstallDirListing()
+	crlrepository.VerifInstallRepoConstructor()
+	cfg := &config.CRLConfig{WorkDir: "/work", StorageTypeParsed: config.Disk, CDPConfig: &config.CDPConfig{CRLFetchModeParsed: fetch}, SignatureValidationModeParsed: sig, UpdateIntervalParsed: 1800e9}
 	s1 := sym("s1")
-	useFile := verifrt.Choose(2) == 1
 	loc := urlB
-	if useFile {
+	if verifrt.Choose(2) == 1 {
 		loc = fileC
-		c.crlConfig.CRLFiles = []string{fileC}
+		cfg.CRLFiles = []string{fileC}
 	} else {
-		c.crlConfig.CRLUrls = []string{urlB}
-	}
-	provision := func() error {
-		chains := core.NewCertificateChains(nil, nil)
-		if useFile {
-			return c.addCrlFilesFromConfig(chains)
-		}
-		return c.addCrlUrlsFromConfig(chains)
+		cfg.CRLUrls = []string{urlB}
 	}
 	first := crlrepository.VerifNewCRL("L", "CN=I1", s1)
 	crlrepository.VerifSetServer(loc, true, first)
-	err := provision()
+	c := &CRLRevocationChecker{}
+	err := c.Provision(cfg, zap.NewNop())
 	verifrt.Assert(err == nil, "run 1: an acceptable configured CRL provisions")
-	verifrt.RunSpawned()
-	// restart on the same work_dir
+	verifrt.DropSpawned()
+	// the process dies and is started again on the same work_dir (all process state is gone)
 	verifrt.Reboot()
-	c.crlRepository = crlrepository.VerifNewRepo(true, c.crlConfig)
-	c.crlRepository.DeleteTempFilesIfExist()
+	DeregisterCRLWorkDirUsage(cfg)
 	again := crlrepository.VerifNewCRL("L", "CN=I1", s1)
 	verifiesNow := verifrt.Choose(2) == 1
 	again.SetSigOK(verifiesNow)
 	crlrepository.VerifSetServer(loc, true, again)
-	err = provision()
-	verifrt.RunSpawned()
+	c = &CRLRevocationChecker{}
+	err = c.Provision(cfg, zap.NewNop())
+	verifrt.DropSpawned()
 	verifrt.Reach("second-provisioning")
-	cc := crlrepository.VerifCert("CN=I1", s1)
-	st, lerr := c.crlRepository.IsRevoked(cc, nil)
-	inForce := lerr == nil && st != nil && st.Revoked
 	if sig == config.SignatureValidationModeVerify && !verifiesNow {
 		verifrt.Assert(err != nil, "verify: a configured CRL that does not verify under the current trust fails provisioning also after a restart")
-	} else {
-		verifrt.Assert(err == nil, "an acceptable configured CRL provisions after a restart")
-		verifrt.Assert(inForce, "and is in force when provisioning returns")
+		return
 	}
-	verifrt.DropSpawned()
+	verifrt.Assert(err == nil, "an acceptable configured CRL provisions after a restart")
+	if err == nil {
+		cc := crlrepository.VerifCert("CN=I1", s1)
+		st, lerr := c.crlRepository.IsRevoked(cc, nil)
+		verifrt.Assert(lerr == nil && st != nil && st.Revoked, "and is in force when provisioning returns")
+	}
 }
